@@ -152,6 +152,9 @@ type FileSpec struct {
 type CaseIn struct {
 	Target Target     `json:"target"`
 	Files  []FileSpec `json:"files"` // empty: function level only
+	// gated rules ("category/title") switched off in the configuration (level: ignore): they must neither
+	// report nor be listed as skipped
+	Disabled []string `json:"disabled"`
 }
 
 type Notice struct {
@@ -246,11 +249,21 @@ func newEnv(tmp string) *env {
 	return e
 }
 
-func (t Target) yamlDoc(e *env) map[string]any {
-	doc := map[string]any{"rules": map[string]any{
+func (t Target) yamlDoc(e *env, disabled []string) map[string]any {
+	rulesDoc := map[string]any{
 		"bugs":   map[string]any{"if-empty-object": map[string]any{"level": "error"}},
 		"custom": map[string]any{"one-liner-rule": map[string]any{"level": "error"}},
-	}}
+	}
+	for _, d := range disabled {
+		ct := strings.SplitN(d, "/", 2)
+		cat, _ := rulesDoc[ct[0]].(map[string]any)
+		if cat == nil {
+			cat = map[string]any{}
+		}
+		cat[ct[1]] = map[string]any{"level": "ignore"}
+		rulesDoc[ct[0]] = cat
+	}
+	doc := map[string]any{"rules": rulesDoc}
 	caps := map[string]any{}
 	if t.Engine != "" {
 		if t.File {
@@ -351,7 +364,7 @@ func (e *env) runCase(c *CaseIn) (o CaseOut) {
 			o.ConfigErr = fmt.Sprintf("panic: %v", r)
 		}
 	}()
-	bs, err := json.Marshal(c.Target.yamlDoc(e))
+	bs, err := json.Marshal(c.Target.yamlDoc(e, c.Disabled))
 	must(err)
 	var uc config.Config
 	if err := yaml.Unmarshal(bs, &uc); err != nil {
@@ -446,7 +459,7 @@ func (e *env) runCase(c *CaseIn) (o CaseOut) {
 
 // signature: what the gates can see of a target's capabilities
 func (e *env) signature(t Target) string {
-	bs, err := json.Marshal(t.yamlDoc(e))
+	bs, err := json.Marshal(t.yamlDoc(e, nil))
 	must(err)
 	var uc config.Config
 	if err := yaml.Unmarshal(bs, &uc); err != nil || uc.Capabilities == nil {
@@ -599,6 +612,25 @@ func main() {
 			for _, s := range setNames {
 				jobs = append(jobs, job{"lint", s, CaseIn{Target: t, Files: fileSets[s]}})
 			}
+		}
+		// some gated rules switched off in the configuration
+		gatedAll := []string{"idiomatic/use-if", "idiomatic/use-contains", "idiomatic/use-strings-count", "imports/use-rego-v1",
+			"idiomatic/custom-has-key-construct", "bugs/if-object-literal", "custom/one-liner-rule", "bugs/deprecated-builtin",
+			"bugs/sprintf-arguments-mismatch", "imports/implicit-future-keywords"}
+		nDis := 8
+		if tier == "thorough" {
+			nDis = 60
+		}
+		for i := 0; i < nDis; i++ {
+			t := hutil.Choice(rng, lintTargets)
+			var dis []string
+			for _, g := range gatedAll {
+				if rng.Below(3) == 0 {
+					dis = append(dis, g)
+				}
+			}
+			s := hutil.Choice(rng, setNames)
+			jobs = append(jobs, job{"lint", s + "-disabled", CaseIn{Target: t, Files: fileSets[s], Disabled: dis}})
 		}
 	}
 	results := make([]CaseOut, len(jobs))
